@@ -54,14 +54,22 @@ def build_desc_forest(descs):
         if ty == "base": tref = base()
         elif ty == "typedef-base": tref = wrap("typedef", base())
         elif ty == "cv-typedef-base": tref = wrap("const", wrap("typedef", wrap("volatile", base())))
+        elif ty == "deep-typedef-base":
+            tref = base()
+            for lvl in range(12):
+                tref = wrap(("typedef", "const", "volatile")[lvl % 3], tref)
         elif ty == "pointer": tref = wrap("pointer", base())
         elif ty == "ptrmember": tref = wrap("ptrmember", base())
         elif ty == "struct":
             tref = new(); kids.append({"id": tref, "tag": T["struct"], "children": [], "attrs": [{"name": AT["name"], "form": "string", "value": "S"}]})
-        elif ty in ("enum-typed", "enum-typedef-typed", "enum-untyped"):
+        elif ty in ("enum-typed", "enum-typedef-typed", "enum-deep-typed", "enum-untyped"):
             under = None
             if ty == "enum-typed": under = base()
             elif ty == "enum-typedef-typed": under = wrap("typedef", base())
+            elif ty == "enum-deep-typed":
+                under = base()
+                for lvl in range(12):
+                    under = wrap(("typedef", "volatile", "const")[lvl % 3], under)
             eid = new()
             enrs = []
             forms = {"none": [], "sdata": ["sdata", "sdata"], "udata": ["udata"], "mixed": ["sdata", "udata"]}[d["enrs"]]
